@@ -256,13 +256,20 @@ def gen_stream(rng, n_replies=None, linked=False):
         if i == 0: r0 = r
         fls.append(f if rng.random() < (0.9 if linked else 0.6) else None)
     gaps = [rng.choice(['', '', '\n', '\n\n', ' ']) for _ in range(n)]
-    return dict(kind='path', docs=docs, filters=fls, gaps=gaps)
+    # some servers start every message with an XML declaration (after the white space that follows the delimiter)
+    decl = [rng.random() < 0.3 for _ in range(n)]
+    return dict(kind='path', docs=docs, filters=fls, gaps=gaps, decl=decl)
+
+XML_DECL = b'<?xml version="1.0" encoding="UTF-8"?>'
+def _doc_bytes(case, i):
+    H, G = _H()
+    return (XML_DECL if case.get('decl') and case['decl'][i] else b'') + G.ser(_tup(case['docs'][i])).encode()
 
 def stream_bytes(case):
     H, G = _H()
     s = b''
-    for d, g in zip(case['docs'], case['gaps']):
-        s += G.ser(_tup(d)).encode() + H.DELIM + g.encode()
+    for i, g in enumerate(case['gaps']):
+        s += _doc_bytes(case, i) + H.DELIM + g.encode()
     return s
 
 def path_expected(case):
@@ -313,6 +320,33 @@ def run_path(case, cuts):
         segs = H.cuts_to_segments(stream, cuts)
     return H.run_stream(segs, fstrs, use_filter=True)
 
+def run_path_obs(case, cuts):
+    """run_path with the per-read observations of harness/saxseg.py"""
+    H, G = _H()
+    from harness import saxseg as S
+    stream = stream_bytes(case)
+    fstrs = [None if f is None else G.filter_str(_ftup(f)) for f in case['filters']]
+    segs = [stream[i:i + 1] for i in range(len(stream))] if cuts == 'bytewise' else H.cuts_to_segments(stream, cuts)
+    return S.run_stream_obs(segs, fstrs, use_filter=True)
+
+def check_driver_model(ctx, case, stream, runs):
+    """JunosParse.run (extracted, instance JunosSax) vs the implementation, read by read, for the cut runs of one stream"""
+    if not ctx.model or not runs: return
+    H, G = _H()
+    from harness import saxseg as S
+    fstrs = [None if f is None else G.filter_str(_ftup(f)) for f in case['filters']]
+    world = S.world_for(stream, H.ids_for(len(case['docs'])), fstrs, env_val, events_val)
+    for k in range(0, len(runs), 400):
+        part = runs[k:k + 400]
+        mres = ctx.model.call([4, world, stream, [S.lens_of(stream, c) for c, _ in part]])
+        for (cuts, log), m in zip(part, mres):
+            bad = S.compare(m, log)
+            ctx.hist('driver_model', 'outside the model (expat rejects)' if any(r[0] == 3 for r in m[0]) else 'compared')
+            if bad:
+                ctx.disagree(dict(case, cuts=cuts if cuts == 'bytewise' else list(cuts)), repr(bad[1])[:600], repr(bad[2])[:600],
+                             'JunosParse.run vs JunosXMLParser.parse: ' + bad[0], theorem='C18_segmentation_independent')
+                return
+
 def path_sig(case, cuts):
     """Signature of a whole-path failure: if the same failure shows without any cut it is a handler-level class,
     otherwise it depends on the segmentation and no open finding covers it."""
@@ -332,9 +366,9 @@ def interesting_positions(case):
     """offsets of the start-tag ends and of the delimiters in the stream"""
     H, G = _H()
     pos, off = [], 0
-    for d, g in zip(case['docs'], case['gaps']):
-        b = G.ser(_tup(d)).encode()
-        pos.append((off, off + b.index(b'>') + 1))          # reply start tag
+    for i, g in enumerate(case['gaps']):
+        b = _doc_bytes(case, i)
+        pos.append((off, off + b.index(b'>', b.index(b'<rpc-reply' if b'<rpc-reply' in b else b'<nc:rpc-reply')) + 1))          # reply start tag
         pos.append((off + len(b) - 14, off + len(b) + 6 + len(g)))   # end tag .. delimiter
         off += len(b) + 6 + len(g)
     return pos
@@ -344,14 +378,17 @@ def check_path_case(ctx, case, cutsets):
     ctx.hist('path_replies', len(case['docs'])); ctx.hist('path_filters', ''.join('F' if f is not None else '-' for f in case['filters']))
     ctx.hist('path_stream_len', len(stream) // 50 * 50)
     n = 0
+    runs = []
     for cuts in cutsets:
-        res = run_path(case, cuts)
+        res, log = run_path_obs(case, cuts)
+        runs.append((cuts, log))
         n += 1
         v = path_verdict(exp, res)
         if v:
             c = dict(case, cuts=cuts if cuts == 'bytewise' else list(cuts))
             ctx.fail(c, v[1] + ' [cuts %s]' % (cuts,), sig=path_sig(case, cuts), expected=v[2], actual=v[3])
             if len(ctx.failures) > 20: break
+    check_driver_model(ctx, case, stream, runs)
     ctx.evaluations += n
     ctx.traces += n
     ctx.count(dict(stream=stream.hex(), filters=case['filters']), nontrivial=True)
